@@ -177,6 +177,30 @@ def gen_cases(rng, tier, h):
                     cases.append(c)
                     c = []
                 continue
+            if nm.startswith("ray_") and i % 6 == 5:
+                # nearly (not exactly) axis-parallel: one direction component of tiny non-zero magnitude, the origin just
+                # outside that axis' slab, so that this slab decides where the interval begins (at parameter tin); the other
+                # axes are exactly parallel with the origin strictly inside their slabs
+                n = 3 if nm == "ray_box3" else 2
+                k = rng.randrange(n)
+                tiny = rng.pick([1e-8, 3e-8, 1e-7, 1e-10, 1e-15, 1e-20]) * rng.pick([1.0, -1.0])
+                tin = rng.pick([2.0, 4.0, 10.0])
+                lo = [rng.pick([-2.0, -1.0, 0.0]) for _ in range(n)]
+                up = [l + rng.pick([1.0, 2.0]) for l in lo]
+                lo[k], up[k] = (0.0, rng.pick([1.0, 2.0])) if tiny > 0 else (-rng.pick([1.0, 2.0]), 0.0)
+                org = [l + rng.pick([0.25, 0.5, 0.75]) * (u - l) for l, u in zip(lo, up)]
+                org[k] = r32(-r32(tiny) * tin)
+                d = [0.0] * n
+                d[k] = tiny
+                tr = rng.pick([[0.0, INF], [0.0, 100.0], [1.0, 50.0], [0.0, tin * 0.5]])
+                byname = dict(org=org, dir=d, b=lo + up, tr=tr)
+                for pn, t in params:
+                    vals += byname[pn]
+                c.append(nm + " " + " ".join(f2h(x) for x in vals))
+                if len(c) == 20:
+                    cases.append(c)
+                    c = []
+                continue
             if nm.startswith("ray_") and i % 6 == 1:
                 # structured axis-parallel ray: one axis k with direction exactly 0 and the origin in the lower face plane,
                 # the upper face plane, strictly inside or strictly outside of that axis' slab; the ray crosses the box
@@ -213,6 +237,11 @@ def gen_cases(rng, tier, h):
                         v[1] = INF
                 if nm.startswith("xfm_") and pn == "m":
                     v = [x if abs(x) != INF else 1.0 for x in v]
+                    if i % 4 == 1 and len(v) == 12:
+                        # pure scales / mirrors (all off-diagonal entries exactly 0, at least one negative factor in half
+                        # of them) with a translation: an axis-aligned box stays axis-aligned but its corners swap roles
+                        sc = [rng.pick([0.5, 1.0, 2.0, 3.0]) * (rng.pick([1.0, -1.0]) if rng.chance(0.6) else 1.0) for _ in range(3)]
+                        v = [sc[0], 0.0, 0.0, 0.0, sc[1], 0.0, 0.0, 0.0, sc[2]] + v[9:]
                 if nm.startswith("xfm_") and pn != "m" and i % 4 == 2 and len(v) == 6:
                     # degenerate boxes: a single point, a segment, a rectangle (lower == upper on 3 / 2 / 1 axes)
                     deg = rng.pick([(0, 1, 2), (0, 1, 2), (0, 1), (1, 2), (2,)])
@@ -362,6 +391,39 @@ def oracle_xfm(a, out):
     return None
 
 
+def _oracle_ray_tspace(n, org, d, lo, up, tr, res):
+    """direction components of tiny (but normal) magnitude: the exact parameter interval, computed per slab in double
+    precision, against the returned one at parameters well away (2 %) from every end point"""
+    t0, t1 = tr
+    for k in range(n):
+        if d[k] == 0.0:
+            if not (lo[k] < org[k] < up[k]):
+                return None       # outside / on a face of a parallel axis: judged by the point-sampling oracle
+        else:
+            a_, b_ = (lo[k] - org[k]) / d[k], (up[k] - org[k]) / d[k]
+            t0, t1 = max(t0, min(a_, b_)), min(t1, max(a_, b_))
+    if any(x != x for x in res):
+        return None
+    ends = [e for e in (t0, t1, res[0], res[1]) if abs(e) != INF]
+    if any(abs(e) > 1e30 for e in ends):
+        return None
+    cands = []
+    for e in ends:
+        m = 0.02 * max(1.0, abs(e))
+        cands += [e - 3 * m, e + 3 * m]
+    if abs(t0) != INF and abs(t1) != INF:
+        cands.append(0.5 * (t0 + t1))
+    for t in cands:
+        if any(abs(t - e) < 0.02 * max(1.0, abs(e)) for e in ends):
+            continue
+        inside = t0 <= t <= t1
+        got = res[0] <= t <= res[1]
+        if inside != got:
+            return ("intersectRayBox must cover exactly the ray parameters whose points lie inside the box (nearly axis-parallel "
+                    "ray): exact interval [%s, %s], returned %s, parameter %s" % (t0, t1, res, t))
+    return None
+
+
 def oracle_ray(nm, a, out):
     """intersectRayBox covers exactly the ray parameters whose points lie inside the box. Axis-parallel rays (direction
     components that are exactly 0) are judged by exact geometry: the component stays at org_k. Not judged: components of
@@ -370,6 +432,9 @@ def oracle_ray(nm, a, out):
     if any(x != x for x in a):
         return None
     org, d, lo, up, tr = a[:n], a[n:2 * n], a[2 * n:3 * n], a[3 * n:4 * n], a[4 * n:]
+    if any(x != 0.0 and 1e-25 < abs(x) < 0.2 for x in d) and not any(abs(x) == INF for x in d + org + lo + up) \
+            and all(l <= u for l, u in zip(lo, up)) and tr[0] <= tr[1]:
+        return _oracle_ray_tspace(n, org, d, lo, up, tr, [h2f(t) for t in out])
     if any((x != 0.0 and abs(x) < 0.2) or abs(x) == INF for x in d) or any(u < l for l, u in zip(lo, up)) or any(abs(x) == INF for x in org + lo + up):
         return None
     if all(x == 0.0 for x in d):
